@@ -43,8 +43,10 @@ ASSUMPTIONS = [
     "without any model",
     "the module global `math` of type_checker.py is wrapped so that math.isnan(<int or Fraction>) is False without conversion",
     "hash-consing tables keyed syntactically (S2')",
-    "a divisor constant is non-zero and a divisor parameter's type is not the point 0 (the type checker raises "
-    "ZeroDivisionError on those: not well-formed expressions)",
+    "a constant divisor is a concrete integer from the pool -3, -1, 2, 5 and a parameter used as a divisor is not point-typed "
+    "(exact Fraction division of the type bounds by a SYMBOLIC integer loops in gcd under CrossHair); divisor sub-expressions "
+    "built from parameters and constants are unrestricted; a divisor of point type 0 is not well-formed (ZeroDivisionError "
+    "in the type checker) and pruned",
 ]
 
 SHAPES = {
@@ -57,7 +59,8 @@ SHAPES = {
     "bin-in-nary": ["n", ["o", "L", "L"], "L", "L"],
     "bin-bin": ["o", ["o", "L", "L"], ["o", "L", "L"]],  # 7 nodes
 }
-LEAF_KINDS = ["F0", "F1", "P0", "P1", "C", "S", "U", "R"]
+LEAF_KINDS = ["F0", "F1", "P0", "P1", "C", "Cd", "S", "U", "R"]
+DIVISORS = [-3, -1, 2, 5]   # concrete constants (kind Cd): exact Fraction division by a SYMBOLIC integer loops in gcd under CrossHair
 
 
 def _walk_tags(s):
@@ -151,11 +154,13 @@ def _leaf(ctx, w, i, kind):
         c = ctx.int(f"c{i}")
         w.consts[i] = c
         return em.Int(c)
+    if kind == "Cd":
+        return em.Int(DIVISORS[ctx.choice(f"cd{i}", len(DIVISORS))])
     raise ValueError(kind)
 
 
 def _constant_like(kind):
-    return kind in ("C", "S")
+    return kind in ("C", "S", "Cd")
 
 
 def _build(ctx, w, shape, leaves, kinds_it, ops, text):
@@ -174,24 +179,16 @@ def _build(ctx, w, shape, leaves, kinds_it, ops, text):
     text.append(")")
     args = [s[0] for s in subs]
     if op == "/":
-        # constant / constant is folded by the simplifier with float arithmetic (C11); not a subject here
+        # constant / constant is folded by the simplifier (C11's subject); a constant divisor is the concrete leaf Cd
+        # (division of the bounds by a symbolic integer loops in Fraction's gcd); a parameter divisor is not point-typed
         ctx.assume(not (subs[0][1] and subs[1][1]))
-        dk = subs[1][2]
-        if dk == "C" or dk == "S":
-            v = args[1]
-            ctx.assume(_nonzero_const(ctx, w, v))
+        ctx.assume(not subs[1][1] or subs[1][2] == "Cd")
+        if subs[1][2] in ("P0", "P1", "R"):
+            t = args[1].type
+            ctx.assume(t.lower_bound < t.upper_bound)
     mk = {"+": em.Plus, "-": em.Minus, "*": em.Times, "/": em.Div}[op]
     e = mk(*args) if shape[0] == "n" else mk(args[0], args[1])
     return e, all(s[1] for s in subs), None
-
-
-def _nonzero_const(ctx, w, node):
-    if node.is_int_constant():
-        return node.constant_value() != 0
-    if node.is_fluent_exp():  # the static fluent S: its initial value
-        v = w.problem.initial_value(node)
-        return v is None or v.constant_value() != 0
-    return True
 
 
 def _fluent_dependent(e, static_free):
@@ -338,7 +335,7 @@ def shards(tier, seed):
 
     K5 = ["F0", "F1", "P0", "C", "S"]
     for o in "+-*/":
-        sh(f"bin-{NM[o]}", "bin", _combos(2, ["F0", "F1", "P0", "P1", "C", "S", "U"]), [[o]])
+        sh(f"bin-{NM[o]}", "bin", _combos(2, ["F0", "F1", "P0", "P1", "C", "Cd", "S", "U"]), [[o]])
     return out
 
 
